@@ -1,4 +1,5 @@
 import Cdecao.Proofs.NodeEng2
+import Cdecao.Proofs.RoomsNonbinding
 /-! # C17 — room limits can only restrict the result -/
 namespace Props
 open N2
@@ -17,4 +18,85 @@ theorem C17_rooms_le_opt (I : Inst) (R : RoomFns) (hI : InstOK2 I) (top T : Nat)
   rw [hs]
   exact hopt a hh
 
+/-! ## `rooms_nonbinding`: a room list that cannot bind changes nothing (`Proofs/RoomsNonbinding.lean`)
+
+The non-binding hypothesis `hnb` says: every room among the `I.C` largest (`padded = I.roomSizes`, the
+given rooms sorted descending, padded with zeros / truncated to `I.C` entries — so it implicitly needs
+at least `I.C` rooms) is at least as large as the effective size of any course with any number of
+people up to `numMax + #instructors`. `nonBinding_of_all` derives it from "at least `I.C` rooms, each of
+them large enough". -/
+
+/-- node level: the node solver returns literally the same result — verdict, score, assignment,
+    children, panic message — as on the problem without room list -/
+theorem C17_rooms_nonbinding (I : Inst) (R : RoomFns) (nd : Node) (rooms padded : List Nat)
+    (hr : I.rooms = some rooms) (hp : I.roomSizes = some padded) (hI : InstOK2 I) (hn : NodeOK2 I nd)
+    (hnb : ∀ c, c < I.C → ∀ n, n ≤ (I.course c).numMax + (I.course c).instructors.length →
+      ∀ r ∈ padded, R.eff c n ≤ r) :
+    runNodeS I R nd = runNodeS { I with rooms := none } R nd :=
+  rooms_nonbinding' I R nd rooms padded hr hp hI hn hnb
+
+/-- the counting bound behind it: after the matching of any node, the number of participants
+    assigned to a course (instructors included) is at most `numMax + #instructors` -/
+theorem C17_count_le (I : Inst) (nd : Node) (hI : InstOK I) (hn : NodeOK I nd) (mm : H2.Vec Nat)
+    (hperf : H2.Perfect (H2.probOf (nodeInp I nd)) mm.get) (c : Nat) (hc : c < I.C) :
+    (List.range I.P).countP (fun p => (H2.Vec.tab I.P (assign I nd mm.get)).get p == some c)
+      ≤ (I.course c).numMax + (I.course c).instructors.length :=
+  node_count_le I nd hI hn mm hperf c hc
+
+/-- the two `Solver` instances agree on `res` and `kids` at every node satisfying `NodeOK2` -/
+theorem C17_rooms_nonbinding_solver (I : Inst) (R : RoomFns) (padded : List Nat)
+    (hp : I.roomSizes = some padded) (hI : InstOK2 I) (hnb : NonBinding I R padded)
+    (nd : Node) (hn : NodeOK2 I nd) :
+    (solverOf I R).res nd = (solverOf { I with rooms := none } R).res nd ∧
+      (solverOf I R).kids nd = (solverOf { I with rooms := none } R).kids nd :=
+  solver_agree I R padded hp hI.toInstOK hnb nd hn
+
+/-- whole search tree: below the root the two search trees are identical — the same nodes, and at
+    every node the same verdict and the same children -/
+theorem C17_rooms_nonbinding_tree (I : Inst) (R : RoomFns) (padded : List Nat)
+    (hp : I.roomSizes = some padded) (hI : InstOK2 I) (hnb : NonBinding I R padded) (f : Node) :
+    ((letI := solverOf I R; Eng3.Desc f rootNode) ↔
+      (letI := solverOf { I with rooms := none } R; Eng3.Desc f rootNode)) ∧
+    ((letI := solverOf I R; Eng3.Desc f rootNode) →
+      (solverOf I R).res f = (solverOf { I with rooms := none } R).res f ∧
+      (solverOf I R).kids f = (solverOf { I with rooms := none } R).kids f) :=
+  rooms_nonbinding_tree I R padded hp hI.toInstOK hnb f
+
+/-- parallel search: for every thread count `T` and every schedule, the engine passes through
+    exactly the same configurations (pending list, incumbent and its score, thread states) as on the
+    room-free problem — in particular it reports the same result -/
+theorem C17_rooms_nonbinding_search (I : Inst) (R : RoomFns) (padded : List Nat)
+    (hp : I.roomSizes = some padded) (hI : InstOK2 I) (hnb : NonBinding I R padded) (top T : Nat)
+    (c : Eng3.Cfg Node (List (Option Nat))) :
+    (letI := solverOf I R; Eng3.Reach rootNode top T c) ↔
+      (letI := solverOf { I with rooms := none } R; Eng3.Reach rootNode top T c) :=
+  rooms_nonbinding_reach I R padded hp hI.toInstOK hnb top T c
+
+/-- non-vacuity of the hypotheses: two courses, three rooms of which the two largest hold 5 and 4 -/
+example :
+    let I : Inst := { cs := [⟨1, 2, false, [0]⟩, ⟨0, 3, true, []⟩]
+                      ps := [⟨[]⟩, ⟨[⟨0, 0⟩, ⟨1, 5⟩]⟩, ⟨[⟨1, 0⟩]⟩]
+                      rooms := some [4, 1, 5] }
+    let R : RoomFns := ⟨fun _ n => n + 1, fun _ r => r - 1⟩
+    I.rooms = some [4, 1, 5] ∧ I.roomSizes = some [5, 4] ∧ InstOK2 I ∧ NodeOK2 I rootNode ∧
+      NonBinding I R [5, 4] := by
+  intro I R
+  refine ⟨rfl, by decide, (validb_sound I (by decide)).1, rootNode_ok2 I, ?_⟩
+  intro c hc n hn r hr
+  have hC : I.C = 2 := rfl
+  rw [hC] at hc
+  simp only [List.mem_cons, List.not_mem_nil, or_false] at hr
+  show n + 1 ≤ r
+  have h0 : (I.course 0).numMax + (I.course 0).instructors.length = 3 := rfl
+  have h1 : (I.course 1).numMax + (I.course 1).instructors.length = 3 := rfl
+  have hn3 : n ≤ 3 := by
+    rcases Nat.lt_succ_iff_lt_or_eq.1 hc with h | h
+    · have : c = 0 := by omega
+      subst this; omega
+    · subst h; omega
+  omega
+
+#print axioms C17_rooms_nonbinding
+#print axioms C17_rooms_nonbinding_tree
+#print axioms C17_rooms_nonbinding_search
 end Props
